@@ -59,4 +59,24 @@ theorem escaping_name_no_effect_layer (dest : Str) (o : Opts) (e : Entry) (es : 
   simp only [Prog.bind, hm, Bool.false_and, Bool.false_eq_true, if_false, hg, layerFinish, ht, ne_eq, not_true_eq_false]
   simp [Prog.run, bind, Prog.bind, pure]
 
+
+/-! ### the replace-or-merge decision is the code's (regenerated from `Unpack` on every run) -/
+
+/-- the model's decision about an object that already exists at the entry's path is, case by case, the
+    if-chain the extractor reads out of `Unpack`'s source -/
+theorem actOf_is_generated (o : Opts) (s : StatInfo) (e : Entry) (self : Bool) :
+    ∃ f, Facts.unpackDecision? = some f ∧
+      actOf o (.stat s) e self = f o.noOverwriteDirNonDir (s.kind == .dir) (e.typ == .dir) self := by
+  refine ⟨_, rfl, ?_⟩
+  unfold actOf
+  cases o.noOverwriteDirNonDir <;> cases hk : (s.kind == Kind.dir) <;> cases ht : (e.typ == Typ.dir) <;> cases self <;>
+    simp_all
+
+/-- and nothing is removed, skipped or refused when `lstat` finds nothing -/
+theorem actOf_absent (o : Opts) (e : Entry) (self : Bool) (r : Res) (h : ∀ s, r ≠ .stat s) : actOf o r e self = 0 := by
+  unfold actOf
+  split
+  · rename_i s; exact absurd rfl (h s)
+  · rfl
+
 end GA.C05
